@@ -68,3 +68,132 @@ Example c01_example :
   step_ok_b [2; 3] [2] 1 [0; 1] [1; 0] = true /\
   run_step nat 99 [2; 3] [2] [0; 1] [1; 0] 1 [[0; 1; 2]; [3; 4; 5]] = [[0; 3]; [1; 4; 2; 5]].
 Proof. vm_compute. split; reflexivity. Qed.
+
+(** * Frame of the transposes: which cells of the arrays source / dest / buf are written
+    (TransposeFrame.v, FrameMem.v, TransposeFrameExec.v).
+    Whole-memory model: every rank holds complete arrays ([mems] = one list per rank, any length >= E).
+    [mh_plain] = _transpose(source, dest) returns (source', dest'); [mh_intact] =
+    _transpose_source_intact(source, dest, buf) returns (dest', buf') - the source array is not an output
+    because no writing phase receives it; [fr V dflt E m m']: same lengths, identical on rank r at every address >= E r.
+    [mh_ok E cur nxt] = step_ok_b and, on every rank, max(destination block size, p * padded block size) <= E r.
+    None of the well-formedness predicates relates extents and process counts: ranks with empty blocks
+    (n < p) are covered. *)
+From PGV Require Import TransposeFrame FrameMem TransposeFrameExec.
+
+(** function level, any address: beyond its block dest keeps the packed cells (own source data at the data
+    positions of the p padded blocks, old contents elsewhere); the receive array (source without a spare
+    buffer, buf with one) holds the senders' packed cells in its first p*bsize cells *)
+Theorem c01_frame_dst_cells :
+  forall (V : Type) (d' : nat) (N P pi ipi pi' ipi' : nat -> nat) (a0 : nat) (src dst : mem V) (q : coords) (A : nat),
+  size (mk (S d') (sh' N P pi' q)) <= A ->
+  snd (mplain V d' N P pi ipi pi' ipi' a0 src dst) q A = mpack V d' N P pi ipi pi' a0 src dst q A.
+Proof. exact mplain_dst_tail. Qed.
+Print Assumptions c01_frame_dst_cells.
+Theorem c01_frame_scratch_cells :
+  forall (V : Type) (d' : nat) (N P pi ipi pi' ipi' : nat -> nat) (a0 : nat) (src dst : mem V) (q : coords) (A : nat),
+  A < P a0 * bsize d' N P pi ipi pi' a0 q ->
+  fst (mplain V d' N P pi ipi pi' ipi' a0 src dst) q A
+  = mpack V d' N P pi ipi pi' a0 src dst (upd q a0 (A / bsize d' N P pi ipi pi' a0 q))
+      (q a0 * bsize d' N P pi ipi pi' a0 q + A mod bsize d' N P pi ipi pi' a0 q).
+Proof. exact mplain_src_scratch. Qed.
+Print Assumptions c01_frame_scratch_cells.
+Theorem c01_frame_scratch_cells_intact :
+  forall (V : Type) (d' : nat) (N P pi ipi pi' ipi' : nat -> nat) (a0 : nat) (src dst buf : mem V) (q : coords) (A : nat),
+  A < P a0 * bsize d' N P pi ipi pi' a0 q ->
+  snd (mintact V d' N P pi ipi pi' ipi' a0 src dst buf) q A
+  = mpack V d' N P pi ipi pi' a0 src dst (upd q a0 (A / bsize d' N P pi ipi pi' a0 q))
+      (q a0 * bsize d' N P pi ipi pi' a0 q + A mod bsize d' N P pi ipi pi' a0 q).
+Proof. exact mintact_buf_scratch. Qed.
+Print Assumptions c01_frame_scratch_cells_intact.
+
+(** one step on lists: nothing at or beyond E is touched *)
+Theorem c01_run_step_frame :
+  forall (V : Type) (dflt : V) (Nl nprocs : list nat) (d' : nat) (E : nat -> nat) (cur nxt : list nat) (from to : mems V),
+  mh_ok Nl nprocs d' E cur nxt = true -> mh_Wm V nprocs E from -> mh_Wm V nprocs E to ->
+  fr V dflt E from (fst (mh_plain V dflt Nl nprocs d' cur nxt from to)) /\
+  fr V dflt E to (snd (mh_plain V dflt Nl nprocs d' cur nxt from to)).
+Proof. exact mh_plain_frame. Qed.
+Print Assumptions c01_run_step_frame.
+Theorem c01_run_step_frame_intact :
+  forall (V : Type) (dflt : V) (Nl nprocs : list nat) (d' : nat) (E : nat -> nat) (cur nxt : list nat) (from to scratch : mems V),
+  mh_ok Nl nprocs d' E cur nxt = true -> mh_Wm V nprocs E from -> mh_Wm V nprocs E to -> mh_Wm V nprocs E scratch ->
+  fr V dflt E to (fst (mh_intact V dflt Nl nprocs d' cur nxt from to scratch)) /\
+  fr V dflt E scratch (snd (mh_intact V dflt Nl nprocs d' cur nxt from to scratch)).
+Proof. exact mh_intact_frame. Qed.
+Print Assumptions c01_run_step_frame_intact.
+(** the block prefix of dest is exactly the output of the prefix-level model run_step (both variants) *)
+Theorem c01_run_step_prefix :
+  forall (V : Type) (dflt : V) (Nl nprocs : list nat) (d' : nat) (E : nat -> nat) (cur nxt : list nat) (from to : mems V) r j,
+  mh_ok Nl nprocs d' E cur nxt = true -> mh_Wm V nprocs E to -> r < nranks nprocs ->
+  inb (shape_of Nl nprocs d' nxt r) j ->
+  cell V dflt (snd (mh_plain V dflt Nl nprocs d' cur nxt from to)) r (ravel (shape_of Nl nprocs d' nxt r) j)
+  = nth (ravel (shape_of Nl nprocs d' nxt r) j) (nth r (run_step V dflt Nl nprocs cur nxt d' from) []) dflt.
+Proof. exact mh_plain_prefix. Qed.
+Print Assumptions c01_run_step_prefix.
+Theorem c01_run_step_prefix_intact :
+  forall (V : Type) (dflt : V) (Nl nprocs : list nat) (d' : nat) (E : nat -> nat) (cur nxt : list nat) (from to scratch : mems V) r j,
+  mh_ok Nl nprocs d' E cur nxt = true -> mh_Wm V nprocs E to -> r < nranks nprocs ->
+  inb (shape_of Nl nprocs d' nxt r) j ->
+  cell V dflt (fst (mh_intact V dflt Nl nprocs d' cur nxt from to scratch)) r (ravel (shape_of Nl nprocs d' nxt r) j)
+  = nth (ravel (shape_of Nl nprocs d' nxt r) j) (nth r (run_step V dflt Nl nprocs cur nxt d' from) []) dflt.
+Proof. exact mh_intact_prefix. Qed.
+Print Assumptions c01_run_step_prefix_intact.
+
+(** routes.  _transposeRedirect: beyond E source and dest are untouched, except that after an even number of
+    steps dest is a copy of the whole source array; _transposeRedirect_source_intact: dest and buf are untouched
+    beyond E and the source array is no output at all.  Both deliver the global field in dest. *)
+Theorem c01_run_route_frame :
+  forall (V : Type) (dflt : V) (Nl nprocs : list nat) (d' : nat) (E : nat -> nat) (cur : list nat) (steps : list (list nat)) (src dst : mems V),
+  mh_route_ok Nl nprocs d' E cur steps = true -> mh_Wm V nprocs E src -> mh_Wm V nprocs E dst ->
+  fr V dflt E src (fst (mh_redirect V dflt Nl nprocs d' cur steps src dst)) /\
+  (if Nat.even (length steps)
+   then snd (mh_redirect V dflt Nl nprocs d' cur steps src dst) = fst (mh_redirect V dflt Nl nprocs d' cur steps src dst)
+   else fr V dflt E dst (snd (mh_redirect V dflt Nl nprocs d' cur steps src dst))).
+Proof. exact mh_redirect_frame. Qed.
+Print Assumptions c01_run_route_frame.
+Theorem c01_run_route_frame_intact :
+  forall (V : Type) (dflt : V) (Nl nprocs : list nat) (d' : nat) (E : nat -> nat) (cur : list nat) (steps : list (list nat)) (src dst buf : mems V),
+  mh_route_ok Nl nprocs d' E cur steps = true -> mh_Wm V nprocs E src -> mh_Wm V nprocs E dst -> mh_Wm V nprocs E buf ->
+  fr V dflt E dst (fst (mh_redirect_intact V dflt Nl nprocs d' cur steps src dst buf)) /\
+  fr V dflt E buf (snd (mh_redirect_intact V dflt Nl nprocs d' cur steps src dst buf)).
+Proof. exact mh_redirect_intact_frame. Qed.
+Print Assumptions c01_run_route_frame_intact.
+Theorem c01_mem_route_correct :
+  forall (V : Type) (dflt : V) (Nl nprocs : list nat) (d' : nat) (E : nat -> nat) (G : list nat -> V) (cur : list nat)
+    (steps : list (list nat)) (src dst : mems V),
+  mh_route_ok Nl nprocs d' E cur steps = true -> mh_Wm V nprocs E src -> mh_Wm V nprocs E dst ->
+  HoldsL V dflt Nl nprocs d' G cur src ->
+  HoldsL V dflt Nl nprocs d' G (last steps cur) (snd (mh_redirect V dflt Nl nprocs d' cur steps src dst)).
+Proof. exact mh_redirect_correct. Qed.
+Print Assumptions c01_mem_route_correct.
+Theorem c01_mem_route_correct_intact :
+  forall (V : Type) (dflt : V) (Nl nprocs : list nat) (d' : nat) (E : nat -> nat) (G : list nat -> V) (cur : list nat)
+    (steps : list (list nat)) (src dst buf : mems V),
+  steps <> [] -> mh_route_ok Nl nprocs d' E cur steps = true ->
+  mh_Wm V nprocs E src -> mh_Wm V nprocs E dst -> mh_Wm V nprocs E buf ->
+  HoldsL V dflt Nl nprocs d' G cur src ->
+  HoldsL V dflt Nl nprocs d' G (last steps cur) (fst (mh_redirect_intact V dflt Nl nprocs d' cur steps src dst buf)).
+Proof. exact mh_redirect_intact_correct. Qed.
+Print Assumptions c01_mem_route_correct_intact.
+
+(** LayoutHandler.transpose with a spare buffer: the source array afterwards is the source array given - all cells of
+    all ranks, not only the block (in the model no writing phase receives it: pack writes dest, Alltoall writes buf
+    or dest, the unpack writes dest) *)
+Theorem c01_source_intact :
+  forall (V : Type) (dflt : V) (Nl nprocs : list nat) (d' : nat) (cur : list nat) (steps : list (list nat)) (src dst buf : mems V),
+  fst (fst (mh_transpose V dflt Nl nprocs d' cur steps true src dst buf)) = src.
+Proof. intros. apply transpose_m_src_same. Qed.
+Print Assumptions c01_source_intact.
+
+(** non-vacuity: shape [3;2], two processes (blocks of 1 and 2 rows), [0;1] -> [1;0], arrays of 8 cells filled with
+    7 (source), 8 (dest), 9 (buf) beyond the block.  Without a buffer the source array becomes the receive
+    buffer (the 8s are the senders' dest padding); with one it is buf; dest keeps packed cells beyond its block. *)
+Example c01_example_frame :
+  mh_ok [3; 2] [2] 1 (fun _ => 4) [0; 1] [1; 0] = true /\
+  mh_transpose nat 99 [3; 2] [2] 1 [0; 1] [[1; 0]] false [[0;1;7;7;7;7;7;7]; [2;3;4;5;7;7;7;7]] [[8;8;8;8;8;8;8;8]; [8;8;8;8;8;8;8;8]]
+      [[9;9;9;9;9;9;9;9]; [9;9;9;9;9;9;9;9]]
+  = ([[0;8;2;4;7;7;7;7]; [1;8;3;5;7;7;7;7]], [[0;2;4;8;8;8;8;8]; [1;3;5;5;8;8;8;8]], [[9;9;9;9;9;9;9;9]; [9;9;9;9;9;9;9;9]]) /\
+  mh_transpose nat 99 [3; 2] [2] 1 [0; 1] [[1; 0]] true [[0;1;7;7;7;7;7;7]; [2;3;4;5;7;7;7;7]] [[8;8;8;8;8;8;8;8]; [8;8;8;8;8;8;8;8]]
+      [[9;9;9;9;9;9;9;9]; [9;9;9;9;9;9;9;9]]
+  = ([[0;1;7;7;7;7;7;7]; [2;3;4;5;7;7;7;7]], [[0;2;4;8;8;8;8;8]; [1;3;5;5;8;8;8;8]], [[0;8;2;4;9;9;9;9]; [1;8;3;5;9;9;9;9]]).
+Proof. vm_compute. repeat split; reflexivity. Qed.
